@@ -668,6 +668,71 @@ def finish(ctx, lines, pending):
                                                                np.asarray(f['shift']).tolist(), f['rmse']]})
 
 
+def both_weights_expand_probes(ctx, count):
+    """images AND reference catalog carry weights and the reference catalog is expanded: every row appended to the
+    reference catalog keeps the weight of the image source it came from (a real, unmasked number), the original rows
+    keep theirs - so that a later image matched to an appended source is weighted with it"""
+    from astropy.table import Table
+    from tweakwcs import align_wcs, XYXYMatch
+    from .. import alignsim
+    rng = ctx.rng
+    for it in range(count):
+        seed = rng.getrandbits(32)
+        scene = alignsim.Scene(np.random.default_rng(seed))
+        npr = np.random.default_rng(seed + 1)
+        ims, ids, wts = [], [], []
+        for slot, origin in enumerate([(0, 0), (300, 100), (100, 350)]):
+            c, sid = scene.make_image(slot, origin, 'good', None, err=(rng.uniform(-2, 2), rng.uniform(-2, 2)))
+            w = npr.uniform(0.5, 2.0, len(sid))
+            c.meta['catalog']['weight'] = w
+            ims.append(c)
+            ids.append(list(sid))
+            wts.append(w)
+        ref_ids = alignsim.ref_sources(scene, 'centre')
+        sky = scene.sky_of(ref_ids)
+        wref = npr.uniform(0.5, 2.0, len(ref_ids))
+        ref = Table([sky[:, 0], sky[:, 1], wref], names=('RA', 'DEC', 'weight'))
+        case = {'op': 'expand-with-weights', 'scene_seed': seed}
+        ctx.case(case, nontrivial=True, branch='expand-with-weights')
+        try:
+            out = align_wcs(ims, refcat=ref, expand_refcat=True, enforce_user_order=True, fitgeom='rscale',
+                            match=XYXYMatch(searchrad=5, separation=0.5, tolerance=2.0))
+        except Exception as e:   # noqa
+            ctx.oracle_fail(case, {'what': 'align_wcs raised', 'exception': '%s: %s' % (type(e).__name__, str(e)[:100])})
+            continue
+        if any(c.meta.get('fit_info', {}).get('status') != 'SUCCESS' for c in ims):
+            ctx.branch('expand-with-weights:not-all-success-skipped')
+            continue
+        if 'weight' not in out.colnames:
+            ctx.oracle_fail(case, {'what': "the expanded reference catalog lost its 'weight' column"})
+            continue
+        wcol = out['weight']
+        mask = np.zeros(len(out), dtype=bool) if not hasattr(wcol, 'mask') else np.array(wcol.mask, dtype=bool)
+        wout = np.asarray(wcol, dtype=float)
+        n0 = len(ref_ids)
+        if mask[:n0].any() or not np.array_equal(wout[:n0], wref):
+            ctx.oracle_fail(case, {'what': 'the weights of the original reference rows changed'})
+            continue
+        spec = {'images': [((0, 0), 'good', None), ((300, 100), 'good', None), ((100, 350), 'good', None)]}
+        rows = alignsim.map_rows(scene, spec, out, {})
+        src_w = {}
+        for sid, w in zip(ids, wts):
+            for s_, w_ in zip(sid, w):
+                src_w.setdefault(s_, []).append(float(w_))
+        bad = 0
+        for j in range(n0, len(out)):
+            s_ = rows[j][0]
+            if rows[j][3] > 1.0:
+                continue
+            cands = src_w.get(s_, [])
+            if mask[j] or not any(abs(wout[j] - w_) <= 1e-12 * w_ for w_ in cands):
+                bad += 1
+                first = (j, float(wout[j]), bool(mask[j]), cands[:3])
+        if bad:
+            ctx.oracle_fail(case, {'what': 'a source appended to the weighted reference catalog does not carry the weight '
+                                           'of the image source it came from', 'rows': bad, 'first': first})
+
+
 def run(ctx):
     C7._lf()
     lines, pending = [], []
@@ -683,6 +748,7 @@ def run(ctx):
     logging.disable(logging.CRITICAL)
     try:
         c11_groupcat.weight_expand_probe(ctx)
+        both_weights_expand_probes(ctx, ctx.n(2, 20))
     finally:
         logging.disable(logging.NOTSET)
 
